@@ -254,10 +254,16 @@ def reader_loop_total(r: Report, rid: str, fn: FuncInfo, sinks: tuple[str, ...])
     g = CFG(fn.node)
     heads = [n.id for n in g.nodes.values() if n.kind == "loop" and n.ast is L_]
     sink_nodes = {n.id for n in g.nodes.values() if n.ast is not None and n.kind == "stmt" and any(s_ in ast.unparse(n.ast) for s_ in sinks)}
-    skip_nodes = {n.id for n in g.nodes.values() if n.kind in ("cond",) and n.ast is not None and ("is None" in ast.unparse(n.ast))}
+    # an explicitly unusable frame (a part is None) may be skipped: only the *true* branch of such a test is exempt
+    skip_true: dict[int, int] = {}
+    for n in g.nodes.values():
+        if n.kind == "cond" and n.ast is not None and "is None" in ast.unparse(n.ast) and "is not None" not in ast.unparse(n.ast):
+            nb = [b for b, k in g.succ[n.id] if k == "n"]
+            if len(nb) == 2:
+                skip_true[n.id] = nb[0]
     for h in heads:
         body = g.succ[h][0][0]
-        ok, path = g.must_pass(body, sink_nodes | skip_nodes, {h}, skip_edge=lambda n, b, k: k == "exc")
+        ok, path = g.must_pass(body, sink_nodes, {h}, skip_edge=lambda n, b, k: k == "exc" or skip_true.get(n.id) == b)
         r.check(bool(sink_nodes) and ok, rid, f"{fn.qualname}#every-frame-handled",
                 "a received frame can be dropped without being queued or answered: " + " -> ".join(repr(g.nodes[p]) for p in path[-4:]), loc=fn.loc)
 
